@@ -758,6 +758,8 @@ type lcEnv struct {
 	spenders map[wire.OutPoint]*wire.MsgTx
 
 	expiryCalls []lcExpiryCall
+	extBy       map[int]string // which kind of op last changed the account's expiry
+	taint       map[int]bool   // accounts whose batch was committed by another account's spend (no re-watch)
 
 	barrier    *lcBarrier
 	handlerErr map[int]error
